@@ -220,6 +220,11 @@ def _mirsym():
     add("C16.a/delta_stats", "C16", "mirsym", Q, "determine_delta_compressability: exact min/max first and second differences for every i64 sequence, no panic (the statistics choose the wire encoding of integer columns)",
         ["locustdb_serialization::api::determine_delta_compressability"], bounds="sequences of 0..3 (quick) / 0..5 (thorough) arbitrary i64; counterexamples replayed on QueryResponse::serialize -> deserialize",
         spec=sa.DeltaStatsSpec())
+    add("C16.a/serialize_int_column", "C16", "mirsym", Q,
+        "Column::Int(xs).serialize_builder: the representation chosen by the branch chain (range / delta i8,i16,i32 / double-delta i8,i16,i32 / plain i64) decodes back to xs under the wire format's semantics; none of the encoders it calls panics (capnp builders are recording stubs)",
+        ["locustdb_serialization::api::Column::serialize_builder (Int arm)", "api::{determine_delta_compressability,delta_encode,double_delta_encode}"],
+        bounds="0-3 (quick) / 0-4 (thorough) arbitrary i64 values; counterexamples replayed on the public QueryResponse::serialize -> deserialize round trip",
+        spec=sa.SerializeIntColumnSpec(), stubs=["api_capnp column/data/range/delta/double-delta Builders -> recorders of the chosen union member and its fields"])
     add("C16.a/delta_encode", "C16", "mirsym", Q, "delta_encode::<i8|i16|i32> emits the exact differences whenever the caller's guard (all differences fit T) holds; no panic",
         ["locustdb_serialization::api::delta_encode"], bounds="sequences of 1..3 (quick) / 1..5 (thorough) i64 with differences in T's range", spec=sa.DeltaEncodeSpec())
     add("C16.a/double_delta_encode", "C16", "mirsym", Q, "double_delta_encode::<i8|i16|i32> emits the exact second differences whenever they fit T; no panic",
